@@ -245,7 +245,7 @@ Proof. apply inFp_spec, Z.mod_pos_bound, P_pos. Qed.
 Definition fp_of (x : Z) : Fp := mkFp (x mod P) (inFp_mod x).
 Lemma fval_of x : fval (fp_of x) = x mod P. Proof. reflexivity. Qed.
 Lemma fp_of_fval a : fp_of (fval a) = a.
-Proof. apply Fp_eq. cbn. apply Z.mod_small, fval_range. Qed.
+Proof. apply Fp_eq. rewrite fval_of. apply Z.mod_small, fval_range. Qed.
 Lemma fp_of_eq x y : x mod P = y mod P -> fp_of x = fp_of y.
 Proof. intros H. apply Fp_eq. exact H. Qed.
 Lemma fp_of_mod x : fp_of (x mod P) = fp_of x.
@@ -292,9 +292,10 @@ Qed.
 
 Lemma fp_inv_l a : a <> fp_of 0 -> fp_mul (fp_inv a) a = fp_of 1.
 Proof.
-  intros Ha. apply Fp_eq. cbn. rewrite Z.mul_mod_idemp_l by (unfold P; lia).
+  intros Ha. apply Fp_eq. rewrite fval_mul, fval_1. unfold fp_inv. rewrite fval_of.
+  rewrite Z.mul_mod_idemp_l by (unfold P; lia).
   replace (fval a ^ (P - 2) * fval a) with (fval a ^ (P - 1)).
-  - rewrite (Z.mod_1_l P) by (unfold P; lia). apply (fermat (fval a)).
+  - apply (fermat (fval a)).
     pose proof (fval_range a) as Hr. assert (fval a <> 0); [|lia].
     intros E. apply Ha. apply Fp_eq. rewrite E. reflexivity.
   - replace (P - 1) with (P - 2 + 1) by ring. rewrite Z.pow_add_r, Z.pow_1_r by (unfold P; lia). reflexivity.
@@ -304,7 +305,7 @@ Lemma fp_field_theory : field_theory (fp_of 0) (fp_of 1) fp_add fp_mul fp_sub fp
 Proof.
   constructor.
   - exact fp_ring_theory.
-  - intros E. apply (f_equal fval) in E. cbn in E. discriminate E.
+  - intros E. apply (f_equal fval) in E. rewrite fval_0, fval_1 in E. discriminate E.
   - reflexivity.
   - exact fp_inv_l.
 Qed.
@@ -321,22 +322,23 @@ Proof.
 Qed.
 
 Lemma fp_of_add x y : fp_of (x + y) = fp_add (fp_of x) (fp_of y).
-Proof. apply Fp_eq. cbn. apply Z.add_mod. unfold P; lia. Qed.
+Proof. apply Fp_eq. rewrite fval_add, !fval_of. apply Z.add_mod. unfold P; lia. Qed.
 Lemma fp_of_mul x y : fp_of (x * y) = fp_mul (fp_of x) (fp_of y).
-Proof. apply Fp_eq. cbn. apply Z.mul_mod. unfold P; lia. Qed.
+Proof. apply Fp_eq. rewrite fval_mul, !fval_of. apply Z.mul_mod. unfold P; lia. Qed.
 Lemma fp_of_opp x : fp_of (- x) = fp_opp (fp_of x).
 Proof.
-  apply Fp_eq. cbn. rewrite <- (Z.sub_0_l x), <- (Z.sub_0_l (x mod P)).
+  apply Fp_eq. rewrite fval_opp, !fval_of. rewrite <- (Z.sub_0_l x), <- (Z.sub_0_l (x mod P)).
   rewrite Zminus_mod_idemp_r. reflexivity.
 Qed.
 
+Lemma fp_two : fp_add (fp_of 1) (fp_of 1) = fp_of 2.
+Proof. apply Fp_eq. reflexivity. Qed.
 Lemma fp_kofpos p : gen_phiPOS (fp_of 1) fp_add fp_mul p = fp_of (Zpos p).
 Proof.
-  rewrite <- (same_gen (Eqsth Fp) (Eq_ext fp_add fp_mul fp_opp) (ARth_SRth (Rth_ARth (Eqsth Fp) (Eq_ext fp_add fp_mul fp_opp) fp_ring_theory))).
+  rewrite <- (same_gen (Eqsth Fp) (Eq_ext fp_add fp_mul fp_opp) (Rth_ARth (Eqsth Fp) (Eq_ext fp_add fp_mul fp_opp) fp_ring_theory)).
   induction p; cbn [gen_phiPOS1].
-  - rewrite IHp, Pos2Z.inj_xI, fp_of_add, fp_of_mul. rewrite (Radd_comm fp_ring_theory). f_equal.
-    apply Fp_eq; reflexivity.
-  - rewrite IHp, Pos2Z.inj_xO, fp_of_mul. f_equal.
+  - rewrite IHp, Pos2Z.inj_xI, fp_of_add, fp_of_mul, fp_two. apply (Radd_comm fp_ring_theory).
+  - rewrite IHp, Pos2Z.inj_xO, fp_of_mul, fp_two. reflexivity.
   - reflexivity.
 Qed.
 
